@@ -10,6 +10,7 @@
 #include "vsched.h"
 #include <eventpp/eventqueue.h>
 #include <eventpp/hetereventqueue.h>
+#include <eventpp/utilities/orderedqueuelist.h>
 #include <memory>
 // W_HETER 1: HeterEventQueue with two prototypes (even / odd enqueue index) - the class carries its own copy of the queue logic
 // (enqueue, process, processOne, processIf, clearEvents, emptyQueue, wait, waitFor, DisableQueueNotify; no take / peek / processUntil).
@@ -35,7 +36,22 @@ struct Payload
 	~Payload() { --g_livePayload; }
 };
 
-struct Pol { using Threading = eventpp::GeneralThreading<vs::Mutex, vs::Atomic, vs::CondVar>; };
+// W_ORDERED 1: the OrderedQueueList policy, ordered by the enqueue's position in its thread's program (uid % 10).  Sorting by that key
+// (stably) never inverts the order of one producer's own events, so the per-producer order rule of TraceCQ applies unchanged while the
+// events of different producers really are merged by the sorting splices under contention.
+#ifndef W_ORDERED
+#define W_ORDERED 0
+#endif
+#if W_ORDERED == 1
+struct ByIndex { template <typename T> bool operator() (const T & a, const T & b) const { return std::get<0>(a.arguments).uid % 10 < std::get<0>(b.arguments).uid % 10; } };
+#endif
+struct Pol
+{
+	using Threading = eventpp::GeneralThreading<vs::Mutex, vs::Atomic, vs::CondVar>;
+#if W_ORDERED == 1
+	template <typename Item> using QueueList = eventpp::OrderedQueueList<Item, ByIndex>;
+#endif
+};
 #if W_HETER == 1
 typedef eventpp::HeterEventQueue<int, eventpp::HeterTuple<void (const Payload &), void (const Payload &, int)>, Pol> Q;
 struct Dqn { Dqn(Q *) {} };      // HeterEventQueue has no DisableQueueNotify
